@@ -39,9 +39,9 @@ TRUSTED = [
     "translators tools/translate/qasm_tr.py and gates_tr.py (fail-closed)",
     "QubitCircuit.gates is read through the public attributes name/targets/controls/arg_value/classical_controls of Gate (the model's cc flag is the "
     "truthiness of classical_controls, whatever classical_control_value is) and "
-    "targets/classical_store of Measurement; 0-d arrays and numpy qubit indices are not modelled (ndarray targets are generated and judged by the oracle only: open finding ndarray-targets); "
-    "a parameter on a parameterless gate is modelled (same text) but outside circ_wf (open finding parameter-on-parameterless-gate); user gates enter the model by "
-    "NAME only (a user gate named exactly like a library gate is exported by model and code alike: open finding user-gate-with-library-name)",
+    "targets/classical_store of Measurement; 0-d arrays are not modelled; three projections are made by the harness when it writes a circuit for the model (each tied to the code by the exact text / refusal "
+    "comparison): numpy-array targets enter as the list, the arg_value of a gate that takes no parameter enters as None (fix C10-parameterless-gate-arg drops it), "
+    "a gate registered in user_gates enters under a name outside the library name space, which the model refuses (fix C10-user-gate-refused)",
     "equivalence: per record of measurement outcomes, states agree up to a unit scalar",
 ]
 ASSUMES = ["parameters range over all reals via the phase-ring quantification of Found",
@@ -176,7 +176,12 @@ def ccirc(c):
             ops.append(f"EMeas {o['meas'][0]} {st}")
         else:
             nl = lambda xs: "[" + "; ".join(str(x) for x in xs) + "]"
-            ops.append(f"EGate {cstr(o['gate'])} {nl(o['targets'])} {nl(o['controls'])} {carg(o['arg'])} "
+            # fixes C10-user-gate-refused / C10-parameterless-gate-arg: a gate registered in user_gates is refused before any name lookup -
+            # it enters the model under a name outside the library's name space; the arg_value of a gate that takes no parameter
+            # is dropped before printing - it enters the model as None.  (numpy targets enter as the list: fix C10-ndarray-targets.)
+            gname = ("user:" + o["gate"]) if o.get("user") else o["gate"]
+            garg = {"kind": "none", "vals": []} if is_extra_param(o) else o["arg"]
+            ops.append(f"EGate {cstr(gname)} {nl(o['targets'])} {nl(o['controls'])} {carg(garg)} "
                        f"{'true' if o.get('cc') else 'false'}")
     return f"(mkEC {c['N']} {c['ncb']} [{'; '.join(ops)}])"
 
@@ -279,7 +284,7 @@ def exportable(c):
             if o["meas"][1] is None:
                 return False
             continue
-        if o["gate"] not in EXPORTABLE or o.get("cc") or o.get("user") or o.get("np_targets") or is_extra_param(o):
+        if o["gate"] not in EXPORTABLE or o.get("cc") or o.get("user"):
             return False
         for v in o["arg"]["vals"]:
             if v[0] == "f" and not math.isfinite(float(v[1])):
@@ -308,31 +313,10 @@ def oracle(c, qc, text, err, rng=None):
         if exportable(c):
             return ("refused: " + str(err), "OpenQASM text", "a circuit of exportable gates is refused")
         return None
-    if not exportable(c) and any(("gate" in o and (o["gate"] in NON_EXPORTABLE or o.get("cc") or (o.get("user") and not is_userlib(o))))
+    if not exportable(c) and any(("gate" in o and (o["gate"] not in EXPORTABLE or o.get("cc") or o.get("user")))
                                  or ("meas" in o and o["meas"][1] is None) for o in c["ops"]):
         return (dict(text_tail=text[-200:], action=_cc_action(c, qc, text)), "refused with an error", "a non-exportable operation is exported")
-    r = _oracle_text(c, qc, text, rng)
-    # the three open findings of the unchanged tree: reported under their own name ONLY when the circuit is in the narrow class and
-    # the failure is the one the class predicts; anything else keeps its generic description (= a VIOLATION)
-    ops = [o for o in c["ops"] if "gate" in o]
-    if any(is_userlib(o) for o in ops):
-        if r is not None and (r[2].startswith("exported text denotes a different circuit") or r[2].startswith("re-imported circuit acts differently")):
-            return (dict(text_tail=text[-200:], detail=r[2]), "refused with an error (the user gate is not the library gate)", USERLIB)
-        return (text[-200:], "refused with an error", "a user gate named like a library gate is exported") if r is None else r
-    if any(is_nptargets(o) for o in ops):
-        if r is not None and r[2].startswith("exported text is not valid OpenQASM 2.0") and re.search(r"(?m)^\w+(\([^)]*\))? ;$", text):
-            return (r[0], r[1], NPTARGETS)
-        return (text[-200:], "text with the gate's qubits", "a gate with ndarray targets is exported") if r is None else r
-    if any(is_extra_param(o) for o in ops):
-        if r is not None and r[2].startswith("exported text is not valid OpenQASM 2.0"):
-            return (r[0], r[1], EXTRAPARAM)
-        return (text[-200:], "refused or text without the parameter", "a parameter on a parameterless gate is exported") if r is None else r
-    return r
-
-
-USERLIB = "a user gate named exactly like a library gate is exported as the library gate (the text denotes a different unitary)"
-NPTARGETS = "a gate whose targets are a numpy array is exported with an empty qubit list (not valid OpenQASM 2.0)"
-EXTRAPARAM = "a parameterless gate carrying an arg_value is exported with a parameter list (not valid OpenQASM 2.0: wrong arity)"
+    return _oracle_text(c, qc, text, rng)
 
 
 def _oracle_text(c, qc, text, rng=None):
@@ -360,7 +344,7 @@ def _oracle_text(c, qc, text, rng=None):
         psi = r.normal(size=2 ** nq) + 1j * r.normal(size=2 ** nq)
         psi /= np.linalg.norm(psi)
         try:
-            own = C4.impl_branches(qc, psi)
+            own = C4.impl_branches(_eval_twin(c, qc), psi)
         except Exception as e:
             return (f"{type(e).__name__}: {e}", "a circuit", "the circuit itself cannot be evaluated")
         std = OQ.run_prims(prims, nq, nc, psi)
@@ -379,6 +363,14 @@ def _oracle_text(c, qc, text, rng=None):
     if semicolon_only:
         return ([l for l in text.splitlines() if MEAS_LINE.match(l)][:3], "measure q[i] -> c[j];", SEMI)
     return None
+
+
+def _eval_twin(c, qc):
+    """the circuit whose gate list the harness's own evaluator (c04.impl_branches: `g.targets or []`) walks: numpy-array targets are
+    rebuilt as lists there - the action of the circuit is that of its gates, and numpy truthiness is an artefact of the evaluator"""
+    if not any(o.get("np_targets") for o in c["ops"] if "gate" in o):
+        return qc
+    return build_circuit(dict(c, ops=[{k: v for k, v in o.items() if k != "np_targets"} for o in c["ops"]]))
 
 
 def _cc_action(c, qc, text):
@@ -521,7 +513,7 @@ def check_history(hist, rng=None, model_texts=None):
             psi = r.normal(size=2 ** qc.N) + 1j * r.normal(size=2 ** qc.N)
             psi /= np.linalg.norm(psi)
             try:
-                bad = _diff(C4.impl_branches(qc, psi), C4.impl_branches(rq, psi)) if rq.N == qc.N else "number of qubits"
+                bad = _diff(C4.impl_branches(_eval_twin(c, qc), psi), C4.impl_branches(rq, psi)) if rq.N == qc.N else "number of qubits"
             except Exception as e:
                 bad = f"{type(e).__name__}: {e}"
             if bad:
@@ -572,12 +564,6 @@ def classify(f):
     ops = c.get("ops", [])
     if f.get("what") == SEMI and any("meas" in o for o in ops):
         return "measure-without-semicolon"
-    if f.get("what") == USERLIB and any(is_userlib(o) for o in ops):
-        return "user-gate-with-library-name"
-    if f.get("what") == NPTARGETS and any(is_nptargets(o) for o in ops):
-        return "ndarray-targets"
-    if f.get("what") == EXTRAPARAM and any(is_extra_param(o) for o in ops):
-        return "parameter-on-parameterless-gate"
     return None
 
 
@@ -618,18 +604,21 @@ def _stream(ctx, n_ok, n_bad):
         for k in (1, 2):
             ops = [plain("SNOT", [0]), dict(plain(name, rng.sample(range(3), k)), user=True), {"gate": "CNOT", "targets": [1], "controls": [0], "arg": none}]
             cases.append(("user-gate-case-variant", {"N": 3, "ncb": 0, "ops": ops}))
-    # ... and named EXACTLY like a library gate (open finding user-gate-with-library-name)
+    # the same spellings WITHOUT an entry in user_gates (a gate the library knows nothing about): refused as well
+    for name in CASE_VARIANTS:
+        cases.append(("unknown-gate-case-variant", {"N": 3, "ncb": 0, "ops": [plain("SNOT", [0]), plain(name, [rng.randrange(3)])]}))
+    # ... and named EXACTLY like a library gate (refused as well: fix C10-user-gate-refused)
     for name in USERLIB_NAMES:
         ops = [plain("SNOT", [0]), dict(plain(name, [rng.randrange(3)]), user=True)]
         cases.append(("user-gate-library-name", {"N": 3, "ncb": 0, "ops": ops}))
-    # targets given as a numpy array (open finding ndarray-targets); with controls the export must refuse or be right
+    # targets given as a numpy array (same text as with lists: fix C10-ndarray-targets)
     for name in ["RX", "RY", "RZ", "X", "S", "SNOT", "SQRTNOT", "SWAP", "QASMU"]:
         nc, nt = EXPORTABLE[name]
         qs = rng.sample(range(3), nc + nt)
         arg = none if name not in ONE_PARAM + ["QASMU"] else ({"kind": "scalar", "vals": [enc_num(0.3)]} if name != "QASMU" else
                                                                 {"kind": "list", "vals": [enc_num(0.5), enc_num(-1.25), enc_num(2)]})
         cases.append(("ndarray-targets", {"N": 3, "ncb": 0, "ops": [{"gate": name, "targets": qs[nc:], "controls": qs[:nc], "arg": arg, "np_targets": True}]}))
-    # a parameterless gate carrying an arg_value (open finding parameter-on-parameterless-gate)
+    # a parameterless gate carrying an arg_value (printed without parameter list: fix C10-parameterless-gate-arg)
     for name in PARAMLESS:
         nc, nt = EXPORTABLE[name]
         qs = rng.sample(range(3), nc + nt)
@@ -661,7 +650,7 @@ def correspond(ctx):
                      "1e12, 1e16, 5e-324, ints; QASMU with list / tuple / ndarray parameters, numpy scalars) + random circuits with "
                      "measurements + every exportable gate with 1-3 classical controls and every control value 0..2**k-1 / default (must be refused) + "
                      "circuits with one non-exportable gate / classical control / inf / nan / measurement without store + user gates named like library gates "
-                     "(case variants: refused; exact names, ndarray targets, parameter on a parameterless gate: open findings) + pairs of near-equal angles; "
+                     "(case variants and exact names: refused) + ndarray targets + arg_value on parameterless gates + pairs of near-equal angles; "
                      "non-trivial = has a parameter, a definition or a measurement")
     cases = _stream(ctx, ctx.n(220, 2500), ctx.n(60, 500))
     circs = [c for _, c in cases]
@@ -681,20 +670,9 @@ def correspond(ctx):
         if qc is None:
             corr.disagree(inp, err, "a circuit", "the generated circuit cannot be built")
             continue
-        if kind == "ndarray-targets":
-            pass        # numpy arrays as targets are outside the model's input language (TRUSTED): these cases are judged by the oracle only
-        elif (text is None) != (m is None):
+        if (text is None) != (m is None):
             corr.disagree(inp, "refused: " + str(err) if text is None else text[-200:], "refused" if m is None else m[0][-200:],
                           "export accepted/refused differs between model and implementation")
-        elif text is not None and kind == "extra-parameter":
-            # outside circ_wf (the guard of export_valid): the model must print the same text and must itself say that the text is
-            # not well-formed and that the guard fails - the failure is then reported by the oracle (open finding)
-            mtext, (lexed, wf, nops), (g_shapes, g_wf, g_u) = m
-            if mtext != text:
-                corr.disagree(inp, text.split("\n\n")[-1][-300:], mtext.split("\n\n")[-1][-300:], "exported text differs")
-            elif wf or g_wf:
-                corr.disagree(inp, text.split("\n\n")[-1][-300:], dict(wf=wf, circ_wf=g_wf),
-                              "the model calls a statement with a parameter on a parameterless gate well-formed")
         elif text is not None:
             mtext, (lexed, wf, nops), (g_shapes, g_wf, g_u) = m
             # the guards of export_valid hold on every generated circuit (so the theorem speaks about these cases): the repr(float)
@@ -719,8 +697,7 @@ def correspond(ctx):
             corr.oracle_fail(inp, r[0], r[1], r[2])
     # save_qasm / print_qasm: single saves of every third circuit, then histories of 2-3 saves to one path
     pool = [c for k, c in cases if k in ("random", "sweep", "corpus")]
-    in_finding_class = lambda c: any(is_userlib(o) or is_nptargets(o) or is_extra_param(o) for o in c["ops"])   # judged by `oracle` above
-    hists = [[c] for c in circs[::3] if not in_finding_class(c)] + [gen_history(ctx.rng, pool) for _ in range(ctx.n(60, 500))]
+    hists = [[c] for c in circs[::3]] + [gen_history(ctx.rng, pool) for _ in range(ctx.n(60, 500))]
     hists += [r.get("input", r)["history"] for r in corpus() if "history" in r.get("input", r)]
     for h in hists:
         corr.count("history:" + json.dumps(h, sort_keys=True), nontrivial=len(h) > 1, sample=None)
